@@ -84,8 +84,9 @@ package mqttproxy
 //     PUBLISH the pipeline dropped: both answers accepted.
 //   * not generated: QoS2, invalid filters, '$' topics, empty levels, retained
 //     messages, wills, takeover of a client id (C16), unsubscribe (C14).
-//   * clients that stop reading for good are only generated when
-//     c15HangScenarios is true; their own deliveries are not judged.
+//   * clients that stop reading for good are generated in the thorough tier (in
+//     the quick tier only when c15HangScenarios is true); their own deliveries
+//     are not judged.
 
 import (
 	"bytes"
@@ -112,7 +113,9 @@ import (
 
 // c15HangScenarios switches the generation of clients that stop reading for
 // good while staying connected (DESIGN.md §5.6: explored as a separately
-// classified behaviour).
+// classified behaviour) in the quick tier; the thorough tier always generates
+// them (in 5% of the clients). Replay files containing such a client execute
+// in every tier.
 const c15HangScenarios = false
 
 // ---- scenario ---------------------------------------------------------------
@@ -273,7 +276,7 @@ func c15Gen(rng *sim.Rand, tier string) interface{} {
 		if rng.Bool(0.25) {
 			cl.StallAfter = rng.Range(1, 30)
 			cl.StallMs = rng.Pick(50, 300, 1000, 3000)
-			if c15HangScenarios && rng.Bool(0.25) {
+			if (c15HangScenarios || tier == "thorough") && rng.Bool(0.2) {
 				cl.StallMs = -1
 			}
 		}
@@ -1301,18 +1304,6 @@ func (h *c15H) evaluate() {
 			if cl.rx[m.key] != nil {
 				continue
 			}
-			if m.q == 0 {
-				occ := cl.maxOccFrom(m.tick, h.tick)
-				if occ >= cl.qcap {
-					r.Probe("mqtt.qos0_dropped_queue_full")
-					continue
-				}
-				h.violate("C15.qos0-lost-queue-not-full", "QoS0 message %q on %q never reached eligible client %s although at most %d packets can have been waiting in its outbound queue (capacity %d) from the publish on\n%s",
-					c15Short(m.key), m.topic, cl.spec.ID, occ, cl.qcap, h.describe(m))
-				continue
-			}
-			class := "C15.missing-delivery"
-			why := ""
 			otherLower, hungMatched := "", ""
 			for _, o := range h.clients {
 				if o == cl {
@@ -1325,16 +1316,33 @@ func (h *c15H) evaluate() {
 					hungMatched = o.spec.ID
 				}
 			}
+			if m.q == 0 {
+				occ := cl.maxOccFrom(m.tick, h.tick)
+				if occ >= cl.qcap {
+					r.Probe("mqtt.qos0_dropped_queue_full")
+					continue
+				}
+				if hungMatched != "" {
+					h.violate("C15.fanout-blocked-by-unresponsive-subscriber", "QoS0 message %q on %q never reached eligible client %s (subscriber %s stopped reading while staying connected; at most %d packets can have been waiting in %s's outbound queue of capacity %d)\n%s",
+						c15Short(m.key), m.topic, cl.spec.ID, hungMatched, occ, cl.spec.ID, cl.qcap, h.describe(m))
+					continue
+				}
+				h.violate("C15.qos0-lost-queue-not-full", "QoS0 message %q on %q never reached eligible client %s although at most %d packets can have been waiting in its outbound queue (capacity %d) from the publish on\n%s",
+					c15Short(m.key), m.topic, cl.spec.ID, occ, cl.qcap, h.describe(m))
+				continue
+			}
+			class := "C15.missing-delivery"
+			why := ""
 			switch {
+			case hungMatched != "":
+				class = "C15.fanout-blocked-by-unresponsive-subscriber"
+				why = "subscriber " + hungMatched + " stopped reading while staying connected"
 			case e.lower:
 				class = "C15.overlap-lower-qos-filter-shadows"
 				why = "the client itself also holds a matching filter with a lower QoS"
 			case otherLower != "":
 				class = "C15.fanout-stops-at-lower-qos-subscriber"
 				why = "subscriber " + otherLower + " matches the topic with a QoS below the message's"
-			case hungMatched != "":
-				class = "C15.fanout-blocked-by-unresponsive-subscriber"
-				why = "subscriber " + hungMatched + " stopped reading while staying connected"
 			}
 			h.violate(class, "QoS1 message %q on %q never reached eligible client %s (%s)\n%s", c15Short(m.key), m.topic, cl.spec.ID, why, h.describe(m))
 		}
@@ -1564,7 +1572,7 @@ func TestVerifC15(t *testing.T) {
 			"retransmission interval not asserted; copies between the client's PUBACK and a PINGRESP proving its processing are legal; duplicate QoS0 copies not judged",
 			"with a publish limiter, 'passed the limiter' is read off the recording pipeline; PUBACK for a PUBLISH the pipeline dropped: both accepted",
 			"not generated: QoS2, invalid filters, '$' topics, wills, retained, client-id takeover, unsubscribe, keep-alive expiry (keep-alive 0)",
-			fmt.Sprintf("clients that stop reading for good while connected are generated only when c15HangScenarios (=%v)", c15HangScenarios),
+			fmt.Sprintf("clients that stop reading for good while connected are generated in the thorough tier, in the quick tier only when c15HangScenarios (=%v); their own deliveries are not judged, a message another client misses in such a run is classed C15.fanout-blocked-by-unresponsive-subscriber when the unresponsive client matches its topic", c15HangScenarios),
 		},
 	})
 }
